@@ -45,6 +45,7 @@ static inline cstl_iter F_(_begin)(const MP_ *P, const M_ *m)
         if (w < G_MMN) CSTL_ASSUME(!(G_MMW[w] != CSTL_U_END && P->alive[G_MMW[w]] && P->kv[G_MMW[w]].first < P->kv[r].first));
     return r;
 }
+static inline cstl_iter F_(_end)(const MP_ *P, const M_ *m) { (void)P; (void)m; return CSTL_U_END; }
 static inline MN_ *F_(_deref)(MP_ *P, cstl_iter it)
 {
     CSTL_ASSERT(F_(_deref_ok)(P, it), "std.multimap.iterator->: iterator valid and not end() [C08]");
